@@ -67,9 +67,10 @@ const (
 	c12KTopic
 	c12KRound
 	c12KGhost
+	c12KInterleave // only drawn by the interleave leg (vf_c12_interleave_test.go)
 )
 
-var c12KindNames = []string{"joinNew", "rejoin", "sync", "hb", "leave", "commit", "advance", "topic", "round", "ghost"}
+var c12KindNames = []string{"joinNew", "rejoin", "sync", "hb", "leave", "commit", "advance", "topic", "round", "ghost", "interleave"}
 
 type c12Act struct {
 	Kind    int   `json:"k"`
@@ -85,6 +86,11 @@ type c12Act struct {
 	Off     int64 `json:"o,omitempty"`
 	TMode   int   `json:"tm,omitempty"`
 	TAmt    int   `json:"ta,omitempty"`
+	R1      int   `json:"r1,omitempty"` // interleave: request that is parked at a store call
+	R2      int   `json:"r2,omitempty"` // interleave: request run while R1 is parked
+	Gate    int   `json:"gt,omitempty"` // interleave: which store call of R1 is the scheduling point
+	Nth     int   `json:"n,omitempty"`
+	Who2    int   `json:"w2,omitempty"`
 }
 
 type c12Env struct {
@@ -148,6 +154,8 @@ type c12Run struct {
 	t      *testing.T
 	c      *GroupCoordinator
 	store  *metadata.InMemoryStore
+	gs     *c12GateStore // what the coordinator talks to: store + scheduling points
+	inside int           // requests that ran inside another request's store call (interleave leg)
 	ctx    context.Context
 	opts   c12Opts
 	env    c12Env
@@ -548,6 +556,10 @@ func (r *c12Run) doSync(cl *c12Client, gen int32) {
 	req.Group = c12Group
 	req.Generation = gen
 	req.MemberID = cl.id
+	// the fencing predicate is decided at the instant the request is issued (a request that
+	// is parked in a store call by the interleave leg must not be judged by later events)
+	rej, why := r.mustReject(pre, cl, cl.id, gen)
+	insideBefore := r.inside
 	resp, err := r.c.SyncGroup(r.ctx, req)
 	post := c12Peek(r.c)
 	if err != nil || resp == nil {
@@ -558,10 +570,10 @@ func (r *c12Run) doSync(cl *c12Client, gen int32) {
 	r.tr("sync %s gen=%d ph=%s -> code=%d", c12Short(cl.id), gen, c12Phase(pre.phase), code)
 	r.class(fmt.Sprintf("sync/%s/code%d", c12Phase(pre.phase), code))
 
-	if !c12OffsetsEqual(offBefore, r.offsets()) {
+	if r.inside == insideBefore && !c12OffsetsEqual(offBefore, r.offsets()) {
 		r.violate("C13", "SyncGroup changed committed offsets")
 	}
-	if rej, why := r.mustReject(pre, cl, cl.id, gen); rej {
+	if rej {
 		r.noteReject(why)
 		if code == protocol.NONE {
 			r.violate("C13", "sync from %s with generation %d accepted although %s (current generation %d, members %v)", cl.id, gen, why, pre.gen, c12Keys(pre.members))
@@ -737,6 +749,8 @@ func (r *c12Run) doHeartbeat(cl *c12Client, gen int32) {
 	req.Group = c12Group
 	req.Generation = gen
 	req.MemberID = cl.id
+	rej, why := r.mustReject(pre, cl, cl.id, gen)
+	insideBefore := r.inside
 	resp := r.c.Heartbeat(r.ctx, req)
 	post := c12Peek(r.c)
 	if resp == nil {
@@ -745,10 +759,10 @@ func (r *c12Run) doHeartbeat(cl *c12Client, gen int32) {
 	}
 	r.tr("hb %s gen=%d ph=%s -> code=%d", c12Short(cl.id), gen, c12Phase(pre.phase), resp.ErrorCode)
 	r.class(fmt.Sprintf("hb/%s/code%d", c12Phase(pre.phase), resp.ErrorCode))
-	if !c12OffsetsEqual(offBefore, r.offsets()) {
+	if r.inside == insideBefore && !c12OffsetsEqual(offBefore, r.offsets()) {
 		r.violate("C13", "Heartbeat changed committed offsets")
 	}
-	if rej, why := r.mustReject(pre, cl, cl.id, gen); rej {
+	if rej {
 		r.noteReject(why)
 		if resp.ErrorCode == protocol.NONE {
 			r.violate("C13", "heartbeat from %s with generation %d accepted although %s (current generation %d, members %v)", cl.id, gen, why, pre.gen, c12Keys(pre.members))
@@ -778,6 +792,9 @@ func (r *c12Run) doCommit(cl *c12Client, gen int32, topic string, part int32, of
 		rt.Partitions = append(rt.Partitions, rp2)
 	}
 	req.Topics = append(req.Topics, rt)
+	rej, why := r.mustReject(pre, cl, cl.id, gen)
+	joinedGen := r.joined[cl.id]
+	insideBefore := r.inside
 	resp, err := r.c.OffsetCommit(r.ctx, req)
 	post := c12Peek(r.c)
 	if err != nil || resp == nil {
@@ -802,15 +819,15 @@ func (r *c12Run) doCommit(cl *c12Client, gen int32, topic string, part int32, of
 	}
 	r.class(fmt.Sprintf("commit/%s/code%d", c12Phase(pre.phase), first))
 	offAfter := r.offsets()
-	if rej, why := r.mustReject(pre, cl, cl.id, gen); rej {
+	if rej {
 		r.noteReject(why)
 		if anyOK || n != len(rt.Partitions) {
 			r.violate("C13", "commit from %s with generation %d not rejected for every partition (codes %v) although %s (current generation %d, members %v)", cl.id, gen, codes, why, pre.gen, c12Keys(pre.members))
 		}
-		if !c12OffsetsEqual(offBefore, offAfter) {
+		if r.inside == insideBefore && !c12OffsetsEqual(offBefore, offAfter) {
 			r.violate("C13", "rejected commit from %s (generation %d, %s) changed committed offsets: before=%v after=%v", cl.id, gen, why, offBefore, offAfter)
 		}
-	} else if r.joined[cl.id] != gen {
+	} else if joinedGen != gen {
 		r.class("c13/current-gen-guessed-without-joining")
 	} else if anyOK {
 		r.class("c13/commit-accepted-from-current-member")
@@ -1013,6 +1030,8 @@ func (r *c12Run) step(a c12Act) {
 		}
 	case c12KRound:
 		r.round(a)
+	case c12KInterleave:
+		r.interleaveAct(a)
 	}
 }
 
@@ -1134,9 +1153,10 @@ func c12Execute(t *testing.T, env c12Env, opts c12Opts) *c12Result {
 		}
 		brk := protocol.MetadataBroker{NodeID: 1, Host: "localhost", Port: 9092}
 		store := metadata.NewInMemoryStore(metadata.ClusterMetadata{Brokers: []protocol.MetadataBroker{brk}, ControllerID: 1, Topics: topics})
-		c := NewGroupCoordinator(store, brk, &CoordinatorConfig{CleanupInterval: time.Duration(env.CleanupMs) * time.Millisecond})
+		gs := &c12GateStore{InMemoryStore: store}
+		c := NewGroupCoordinator(gs, brk, &CoordinatorConfig{CleanupInterval: time.Duration(env.CleanupMs) * time.Millisecond})
 		defer c.Stop()
-		r := &c12Run{t: t, c: c, store: store, ctx: context.Background(), opts: opts, env: env, parts: parts,
+		r := &c12Run{t: t, c: c, store: store, gs: gs, ctx: context.Background(), opts: opts, env: env, parts: parts,
 			joined: map[string]int32{}, gens: map[string]*c12GenRec{}, res: res}
 		// odd sub-millisecond start so that harness actions never coincide with a cleanup tick
 		time.Sleep(137 * time.Microsecond)
@@ -1174,54 +1194,9 @@ func c12DrawEnv(t *rapid.T) c12Env {
 		c12KGhost,
 	}
 	n := rapid.IntRange(4, 40).Draw(t, "steps")
-	sessions := []int{0, 3000, 5000, 10000, 30000}
-	rebs := []int{0, 5000, 10000, 60000}
-	genSel := []int{0, 0, 0, 0, 1, 1, 2, 2, 3, 4}
 	for i := 0; i < n; i++ {
 		a := c12Act{Kind: rapid.SampledFrom(kinds).Draw(t, "kind")}
-		switch a.Kind {
-		case c12KJoinNew:
-			a.Sub = rapid.IntRange(0, 15).Draw(t, "sub")
-			a.Sess = rapid.SampledFrom(sessions).Draw(t, "sess")
-			a.Reb = rapid.SampledFrom(rebs).Draw(t, "reb")
-		case c12KRejoin:
-			a.Who = rapid.IntRange(0, 23).Draw(t, "who")
-			a.SubMode = rapid.SampledFrom([]int{0, 0, 1}).Draw(t, "submode")
-			if a.SubMode == 1 {
-				a.Sub = rapid.IntRange(0, 15).Draw(t, "sub")
-			}
-			a.Sess = rapid.SampledFrom(sessions).Draw(t, "sess")
-			a.Reb = rapid.SampledFrom(rebs).Draw(t, "reb")
-		case c12KSync, c12KHeartbeat:
-			a.Who = rapid.IntRange(0, 23).Draw(t, "who")
-			a.GenSel = rapid.SampledFrom(genSel).Draw(t, "gensel")
-			a.GenOff = rapid.IntRange(0, 1).Draw(t, "genoff")
-		case c12KLeave:
-			a.Who = rapid.IntRange(0, 23).Draw(t, "who")
-		case c12KCommit:
-			a.Who = rapid.IntRange(0, 23).Draw(t, "who")
-			a.GenSel = rapid.SampledFrom(genSel).Draw(t, "gensel")
-			a.GenOff = rapid.IntRange(0, 2).Draw(t, "genoff")
-			a.Topic = rapid.IntRange(0, 3).Draw(t, "topic")
-			a.Part = rapid.IntRange(0, 5).Draw(t, "part")
-			a.Off = int64(rapid.IntRange(0, 1000).Draw(t, "off"))
-		case c12KGhost:
-			a.Who = rapid.IntRange(0, 2).Draw(t, "who")
-			a.GenSel = rapid.SampledFrom(genSel).Draw(t, "gensel")
-			a.TMode = rapid.IntRange(0, 2).Draw(t, "op")
-			a.Topic = rapid.IntRange(0, 3).Draw(t, "topic")
-			a.Off = int64(rapid.IntRange(0, 1000).Draw(t, "off"))
-		case c12KAdvance:
-			a.TMode = rapid.SampledFrom([]int{0, 0, 0, 1, 1, 2, 2, 2, 3, 4, 4, 5, 5, 6}).Draw(t, "tmode")
-			a.TAmt = rapid.IntRange(0, 998).Draw(t, "tamt")
-		case c12KTopic:
-			a.Topic = rapid.IntRange(0, 2).Draw(t, "topic")
-			a.Part = rapid.IntRange(0, 5).Draw(t, "part")
-		case c12KRound:
-			a.Who = rapid.IntRange(0, 3).Draw(t, "rot")
-			a.TMode = rapid.IntRange(0, 3).Draw(t, "order")
-			a.TAmt = rapid.IntRange(0, 1).Draw(t, "rejoinall")
-		}
+		c12DrawActFields(t, &a)
 		env.Script = append(env.Script, a)
 	}
 	return env
@@ -1349,4 +1324,59 @@ func TestVF_C12_Witness(t *testing.T) {
 	if v := res.viol["PANIC"]; len(v) > 0 {
 		t.Fatalf("panic in witness: %v", v)
 	}
+}
+
+var c12Sessions = []int{0, 3000, 5000, 10000, 30000}
+
+var c12Rebs = []int{0, 5000, 10000, 60000}
+
+var c12Gensel = []int{0, 0, 0, 0, 1, 1, 2, 2, 3, 4}
+
+// c12DrawActFields draws the parameters of one action of the given kind.
+func c12DrawActFields(t *rapid.T, ap *c12Act) {
+	a := *ap
+	switch a.Kind {
+	case c12KJoinNew:
+		a.Sub = rapid.IntRange(0, 15).Draw(t, "sub")
+		a.Sess = rapid.SampledFrom(c12Sessions).Draw(t, "sess")
+		a.Reb = rapid.SampledFrom(c12Rebs).Draw(t, "reb")
+	case c12KRejoin:
+		a.Who = rapid.IntRange(0, 23).Draw(t, "who")
+		a.SubMode = rapid.SampledFrom([]int{0, 0, 1}).Draw(t, "submode")
+		if a.SubMode == 1 {
+			a.Sub = rapid.IntRange(0, 15).Draw(t, "sub")
+		}
+		a.Sess = rapid.SampledFrom(c12Sessions).Draw(t, "sess")
+		a.Reb = rapid.SampledFrom(c12Rebs).Draw(t, "reb")
+	case c12KSync, c12KHeartbeat:
+		a.Who = rapid.IntRange(0, 23).Draw(t, "who")
+		a.GenSel = rapid.SampledFrom(c12Gensel).Draw(t, "gensel")
+		a.GenOff = rapid.IntRange(0, 1).Draw(t, "genoff")
+	case c12KLeave:
+		a.Who = rapid.IntRange(0, 23).Draw(t, "who")
+	case c12KCommit:
+		a.Who = rapid.IntRange(0, 23).Draw(t, "who")
+		a.GenSel = rapid.SampledFrom(c12Gensel).Draw(t, "gensel")
+		a.GenOff = rapid.IntRange(0, 2).Draw(t, "genoff")
+		a.Topic = rapid.IntRange(0, 3).Draw(t, "topic")
+		a.Part = rapid.IntRange(0, 5).Draw(t, "part")
+		a.Off = int64(rapid.IntRange(0, 1000).Draw(t, "off"))
+	case c12KGhost:
+		a.Who = rapid.IntRange(0, 2).Draw(t, "who")
+		a.GenSel = rapid.SampledFrom(c12Gensel).Draw(t, "gensel")
+		a.TMode = rapid.IntRange(0, 2).Draw(t, "op")
+		a.Topic = rapid.IntRange(0, 3).Draw(t, "topic")
+		a.Off = int64(rapid.IntRange(0, 1000).Draw(t, "off"))
+	case c12KAdvance:
+		a.TMode = rapid.SampledFrom([]int{0, 0, 0, 1, 1, 2, 2, 2, 3, 4, 4, 5, 5, 6}).Draw(t, "tmode")
+		a.TAmt = rapid.IntRange(0, 998).Draw(t, "tamt")
+	case c12KTopic:
+		a.Topic = rapid.IntRange(0, 2).Draw(t, "topic")
+		a.Part = rapid.IntRange(0, 5).Draw(t, "part")
+	case c12KRound:
+		a.Who = rapid.IntRange(0, 3).Draw(t, "rot")
+		a.TMode = rapid.IntRange(0, 3).Draw(t, "order")
+		a.TAmt = rapid.IntRange(0, 1).Draw(t, "rejoinall")
+	}
+	*ap = a
 }
